@@ -75,7 +75,7 @@ pub fn gen_case(r: &mut Rng, idx: u64, thorough: bool) -> CrashCase {
     } else {
         None
     };
-    let link = old_today.is_some() && r.chance(35);
+    let link = old_today.is_some() && (idx % 4 == 1 || r.chance(30));
     CrashCase { year, old_today, today, later_today, cal, every, pre, link }
 }
 
